@@ -47,6 +47,28 @@ def generate(repo):
             items["add_edge_to_list.push_unless_present"] = "miss:unrecognised shape"
     except Exception as ex:  # noqa: BLE001
         items["add_edge_to_list.push_unless_present"] = "miss:%s" % ex
+    # how ids are reserved: one atomic fetch_add on the counter, or a separate load and store
+    atomic = {}
+    for item, fn, counter in (("create_edge.id_reservation", "create_edge", "edge_counter"),
+                              ("batch_create_edges.id_block_reservation", "batch_create_edges", "edge_counter"),
+                              ("create_node_with_labels.id_reservation", "create_node_with_labels", "node_counter"),
+                              ("batch_create_nodes.id_block_reservation", "batch_create_nodes", "node_counter")):
+        atomic[item] = True
+        try:
+            src = strip_comments(read(repo, "graph_engine/src/lib.rs"))
+            _sig, body = find_fn(src, fn, after=r"impl\s+GraphEngine\b")
+            has_store = re.search(r"self\s*\.\s*%s\s*\.\s*(store|swap)\s*\(" % counter, body) is not None
+            has_fetch = re.search(r"=\s*self\s*\.\s*%s\s*\.\s*fetch_add\s*\(" % counter, body) is not None
+            if has_store:
+                atomic[item] = False
+                items[item] = "translated (counter written with store: not one atomic step)"
+            elif has_fetch:
+                items[item] = "translated"
+            else:
+                items[item] = "miss:unrecognised shape"
+        except Exception as ex:  # noqa: BLE001
+            items[item] = "miss:%s" % ex
+    ids_atomic = "true" if all(atomic.values()) else "false"
     text = HEADER + (
         "From NV.Common Require Import Base.\nOpen Scope N_scope.\n\n"
         "Fixpoint asc (l : list N) : bool :=\n"
@@ -54,6 +76,9 @@ def generate(repo):
         "(* graph_engine/src/lib.rs remove_edge_from_list: the new `_edges` list *)\n"
         "Definition gen_remove_from (l : list N) (e : N) : list N :=\n  %s.\n\n"
         "(* add_edge_to_list: the new `_edges` list *)\n"
-        "Definition gen_add_to (l : list N) (e : N) : list N :=\n  %s.\n" % (rem, add)
+        "Definition gen_add_to (l : list N) (e : N) : list N :=\n  %s.\n\n"
+        "(* create_edge / batch_create_edges / create_node_with_labels / batch_create_nodes reserve their ids\n"
+        "   with ONE atomic fetch_add on the counter (no separate load and store) *)\n"
+        "Definition gen_ids_reserved_atomically : bool := %s.\n" % (rem, add, ids_atomic)
     )
     return text, items
